@@ -82,6 +82,38 @@ fn main() {
             out.flush().unwrap();
             continue;
         }
+        if p.len() >= 3 && p[0] == "half_life" {
+            // half_life <min_periods|-> <x0,x1,..>  ->  R <lag> | PANIC <msg>
+            let mp: Option<usize> = if p[1] == "-" { None } else { Some(p[1].parse().unwrap()) };
+            let x = parse_series(p[2]);
+            let r = std::panic::catch_unwind(|| x.half_life(mp));
+            match r {
+                Ok(v) => writeln!(out, "R {}", v).unwrap(),
+                Err(e) => {
+                    let msg = e.downcast_ref::<String>().cloned().or_else(|| e.downcast_ref::<&str>().map(|s| s.to_string())).unwrap_or_default();
+                    writeln!(out, "PANIC {}", msg.replace('\n', " ")).unwrap()
+                },
+            }
+            out.flush().unwrap();
+            continue;
+        }
+        if p.len() >= 4 && p[0] == "winsorize" {
+            // winsorize <q|m|s> <param|-> <x0,x1,..>  ->  values | ERR | PANIC <msg>
+            let method = match p[1] { "q" => WinsorizeMethod::Quantile, "m" => WinsorizeMethod::Median, _ => WinsorizeMethod::Sigma };
+            let param: Option<f64> = if p[2] == "-" { None } else { Some(p[2].parse().unwrap()) };
+            let x = parse_series(p[3]);
+            let r = std::panic::catch_unwind(|| x.winsorize(method, param).map(|it| it.collect::<Vec<f64>>()));
+            match r {
+                Ok(Ok(v)) => writeln!(out, "{}", fmt(&v)).unwrap(),
+                Ok(Err(_)) => writeln!(out, "ERR").unwrap(),
+                Err(e) => {
+                    let msg = e.downcast_ref::<String>().cloned().or_else(|| e.downcast_ref::<&str>().map(|s| s.to_string())).unwrap_or_default();
+                    writeln!(out, "PANIC {}", msg.replace('\n', " ")).unwrap()
+                },
+            }
+            out.flush().unwrap();
+            continue;
+        }
         if p.len() < 4 {
             continue;
         }
